@@ -133,6 +133,10 @@ class State:
 
     def assume(self, cond):
         c = zbool(cond)
+        if z3.is_and(c):
+            for ch in c.children():
+                self.assume(ch)
+            return
         if not z3.is_true(c):
             self.pc.append(c)
 
